@@ -12,7 +12,7 @@ fn sma<T: Dom>(n: usize, k: usize) {
     let mut v = Sma::new(Echo::new(), n);
     let mut h: Vec<T> = vec![];
     for t in 0..k {
-        let x = T::input(&format!("x{t}"));
+        let x = inp::<T>(t, h.last().copied());
         h.push(x);
         v.update(x);
         let w = window(&h, n);
@@ -25,7 +25,7 @@ fn cumulative<T: Dom>(n: usize, k: usize) {
     let mut v = Cumulative::new(Echo::new(), n);
     let mut h: Vec<T> = vec![];
     for t in 0..k {
-        let x = T::input(&format!("x{t}"));
+        let x = inp::<T>(t, h.last().copied());
         h.push(x);
         v.update(x);
         let w = window(&h, n);
@@ -40,7 +40,7 @@ fn minmax<T: Dom>(n: usize, k: usize, is_max_: bool) {
     let mut mx = Max::new(Echo::new(), n);
     let mut h: Vec<T> = vec![];
     for t in 0..k {
-        let x = T::input(&format!("x{t}"));
+        let x = inp::<T>(t, h.last().copied());
         h.push(x);
         let w = window(&h, n);
         if is_max_ {
@@ -62,7 +62,7 @@ fn welford<T: Dom>(n: usize, k: usize) {
     let mut v = WelfordOnline::new(Echo::new(), n);
     let mut h: Vec<T> = vec![];
     for t in 0..k {
-        let x = T::input(&format!("x{t}"));
+        let x = inp::<T>(t, h.last().copied());
         h.push(x);
         v.update(x);
         let w = window(&h, n);
@@ -96,7 +96,7 @@ fn hln<T: Dom>(n: usize, k: usize) {
     let mut h: Vec<T> = vec![];
     let two = T::c(2.0);
     for t in 0..k {
-        let x = T::input(&format!("x{t}"));
+        let x = inp::<T>(t, h.last().copied());
         h.push(x);
         v.update(x);
         let w = window(&h, n);
@@ -111,7 +111,14 @@ fn hln<T: Dom>(n: usize, k: usize) {
             ]));
             cases.push(Cond::And(c));
         } }
-        T::oblige(&format!("HLNormalizer(N={n}) t={t}: out == 2(x-min)/(max-min)-1 over the last min(t,N) values (0 if flat)"), Cond::Or(cases));
+        // the real code builds  -1 + ((last - min) * 2) / (max - min): where that structure is present, it suffices (and is linear)
+        // that `last` is the newest value and `min`/`max` are the extrema of the window
+        let mut alts = vec![];
+        if let Some(('+', _, frac)) = o.bin_parts() { if let Some(('/', num, den)) = frac.bin_parts() { if let (Some(('*', lm, _)), Some(('-', mx, mn2))) = (num.bin_parts(), den.bin_parts()) { if let Some(('-', last, mn)) = lm.bin_parts() {
+            alts.push(Cond::And(vec![eq(last, x), eq(mn, mn2), is_min(mn, w), is_max(mx, w), eq(o * (mx - mn), two * (x - mn) - (mx - mn))]));
+        } } } }
+        alts.push(Cond::Or(cases));
+        T::oblige_alt(&format!("HLNormalizer(N={n}) t={t}: out == 2(x-min)/(max-min)-1 over the last min(t,N) values (0 if flat)"), alts);
     }
 }
 fn roc<T: Dom>(n: usize, k: usize) {
@@ -119,7 +126,7 @@ fn roc<T: Dom>(n: usize, k: usize) {
     let mut h: Vec<T> = vec![];
     let mut held: Option<T> = None;
     for t in 0..k {
-        let x = T::input(&format!("x{t}"));
+        let x = inp::<T>(t, h.last().copied());
         h.push(x);
         v.update(x);
         let cnt = h.len();
@@ -143,7 +150,7 @@ fn binary_entropy<T: Dom>(n: usize, k: usize) {
     let mut v = BinaryEntropy::new(Echo::new(), n);
     let mut h: Vec<T> = vec![];
     for t in 0..k {
-        let x = T::input(&format!("x{t}"));
+        let x = inp::<T>(t, h.last().copied());
         h.push(x);
         v.update(x);
         let w = window(&h, n);
@@ -160,7 +167,7 @@ fn vst<T: Dom>(n: usize, k: usize, centered: bool) {
     let mut h: Vec<T> = vec![];
     let name = if centered { "Vsct" } else { "Vst" };
     for t in 0..k {
-        let x = T::input(&format!("x{t}"));
+        let x = inp::<T>(t, h.last().copied());
         h.push(x);
         if centered { b.update(x) } else { a.update(x) };
         let w = window(&h, n);
@@ -179,13 +186,38 @@ fn vst<T: Dom>(n: usize, k: usize, centered: bool) {
         let full = Cond::Or(vec![Cond::And(vec![flat.clone(), when_flat]), Cond::And(vec![Cond::not(flat.clone()), general])]);
         let mut alts = vec![];
         // out = num/sqrt(rad) as built by the real code: num == numerator and rad == sample variance (polynomial), window not flat
-        if let Some((num, rad)) = o.ratio_sqrt_parts() { alts.push(Cond::And(vec![Cond::not(flat), eq(num * nn, num_n), eq(rad * nm1 * nn * nn, ssn2)])); }
+        // (the quotient term exists only on the path where the view found its std non-zero, so "window not flat" is implied)
+        let _ = &flat;
+        if let Some((num, rad)) = o.ratio_sqrt_parts() { alts.push(Cond::And(vec![eq(num * nn, num_n), eq(rad * nm1 * nn * nn, ssn2)])); }
         alts.push(full);
         T::oblige_alt(&format!("{name}(N={n}) t={t}: out == {} over the last min(t,N) values", if centered { "(x-mean)/std (0 if std=0)" } else { "x/std (x if std=0)" }), alts);
     }
 }
 
-pub fn units(tier: Tier, _seed: u64) -> Vec<Unit> {
+/// which input stream a harness reads: free variables, or a shaped stream built from a few symbolic parameters
+#[derive(Clone, Copy, Debug, PartialEq)]
+pub enum Shape { Free, Decreasing, Increasing, AltThenFlat(usize) }
+thread_local! { static SHAPE: std::cell::Cell<Shape> = const { std::cell::Cell::new(Shape::Free) }; }
+/// the t-th input under the current shape (all harnesses of this module draw their inputs through this)
+fn inp<T: Dom>(t: usize, prev: Option<T>) -> T {
+    match SHAPE.with(|s| s.get()) {
+        Shape::Free => T::input(&format!("x{t}")),
+        // strictly monotone streams: every eviction removes the current extremum (the adversarial pattern for min/max upkeep)
+        Shape::Decreasing => match prev { None => T::input("x0"), Some(p) => { let d = T::input(&format!("posd{t}")); T::assume(lt(T::zero(), d)); p - d } },
+        Shape::Increasing => match prev { None => T::input("x0"), Some(p) => { let d = T::input(&format!("posd{t}")); T::assume(lt(T::zero(), d)); p + d } },
+        // a long alternating stretch, then a flat run, then free values: long-lived state meets ties
+        Shape::AltThenFlat(l) => if t < l { if t % 2 == 0 { T::input("a") } else { T::input("b") } } else if t < l + 5 { T::input("c") } else { T::input(&format!("x{t}")) },
+    }
+}
+fn shaped(shape: Shape, f: impl FnOnce()) { SHAPE.with(|s| s.set(shape)); f(); SHAPE.with(|s| s.set(Shape::Free)); }
+fn sma_s<T: Dom>(n: usize, k: usize, sh: Shape) { shaped(sh, || sma::<T>(n, k)) }
+fn cumulative_s<T: Dom>(n: usize, k: usize, sh: Shape) { shaped(sh, || cumulative::<T>(n, k)) }
+fn minmax_s<T: Dom>(n: usize, k: usize, mx: bool, sh: Shape) { shaped(sh, || minmax::<T>(n, k, mx)) }
+fn welford_s<T: Dom>(n: usize, k: usize, sh: Shape) { shaped(sh, || welford::<T>(n, k)) }
+fn hln_s<T: Dom>(n: usize, k: usize, sh: Shape) { shaped(sh, || hln::<T>(n, k)) }
+fn vst_s<T: Dom>(n: usize, k: usize, c: bool, sh: Shape) { shaped(sh, || vst::<T>(n, k, c)) }
+fn roc_s<T: Dom>(n: usize, k: usize, sh: Shape) { shaped(sh, || roc::<T>(n, k)) }
+pub fn units(tier: Tier, seed: u64) -> Vec<Unit> {
     let ns: Vec<usize> = if tier == Tier::Quick { vec![1, 2, 3] } else { vec![1, 2, 3, 4, 5] };
     let mut u = vec![];
     for &n in &ns {
@@ -199,16 +231,56 @@ pub fn units(tier: Tier, _seed: u64) -> Vec<Unit> {
         u.push(unit!(format!("C02/WelfordOnline/N={n}/k={kw}"), welford(n, kw)));
         u.push(unit!(format!("C02/Roc/N={n}/k={k}"), roc(n, k)));
         u.push(unit!(format!("C02/BinaryEntropy/N={n}/k={k}"), binary_entropy(n, k)));
-        u.push(unit!(format!("C02/Vst/N={n}/k={kw}"), vst(n, kw, false)));
-        u.push(unit!(format!("C02/Vsct/N={n}/k={kw}"), vst(n, kw, true)));
+        u.push(unit!(format!("C02/Vst/N={n}/k={k}"), vst(n, k, false)));
+        u.push(unit!(format!("C02/Vsct/N={n}/k={k}"), vst(n, k, true)));
         if n <= 4 { u.push(unit!(format!("C02/HLNormalizer/N={n}/k={k}"), hln(n, k))); }
     }
+    // larger windows and streams much longer than the window: the comparison path of pseudo-random sample inputs (concolic);
+    // the obligations are still decided for every input that follows that path
+    let big: Vec<(usize, usize)> = if tier == Tier::Quick { vec![(8, 18), (16, 34), (2, 40), (3, 60)] } else { vec![(6, 14), (8, 18), (12, 26), (16, 34), (32, 66), (2, 40), (3, 60), (5, 100)] };
+    let first = u.len();
+    for &(n, k) in &big {
+        u.push(unit!(format!("C02/Sma/N={n}/k={k}/sample-path"), sma(n, k)));
+        u.push(unit!(format!("C02/Cumulative/N={n}/k={k}/sample-path"), cumulative(n, k)));
+        u.push(unit!(format!("C02/Min/N={n}/k={k}/sample-path"), minmax(n, k, false)));
+        u.push(unit!(format!("C02/Max/N={n}/k={k}/sample-path"), minmax(n, k, true)));
+        u.push(unit!(format!("C02/Roc/N={n}/k={k}/sample-path"), roc(n, k)));
+        u.push(unit!(format!("C02/BinaryEntropy/N={n}/k={k}/sample-path"), binary_entropy(n, k)));
+        if n <= 16 { u.push(unit!(format!("C02/WelfordOnline/N={n}/k={k}/sample-path"), welford(n, k.min(n + 12)))); u.push(unit!(format!("C02/Vst/N={n}/k={k}/sample-path"), vst(n, k.min(n + 12), false))); u.push(unit!(format!("C02/Vsct/N={n}/k={k}/sample-path"), vst(n, k.min(n + 12), true))); }
+        if n <= 8 { u.push(unit!(format!("C02/HLNormalizer/N={n}/k={k}/sample-path"), hln(n, k.min(2 * n + 8)))); }
+    }
+    for (i, x) in u.iter_mut().enumerate().skip(first) { x.concolic = Some(seed * 31 + 1 + (i as u64 % 2)); x.budget_s = 60.0; x.max_decisions = 60000; }
+    // shaped long streams, fully symbolic (all comparison outcomes): strictly monotone streams of length 10N+6, where every eviction
+    // removes the extremum, and "8N+2 alternating values, a flat run of 5, then free values", where long-lived state meets ties
+    let first = u.len();
+    let shaped_ns: Vec<usize> = if tier == Tier::Quick { vec![1, 2, 3] } else { vec![1, 2, 3, 4, 6] };
+    for &n in &shaped_ns {
+        let k = 10 * n + 6;
+        for sh in [Shape::Decreasing, Shape::Increasing] {
+            u.push(unit!(format!("C02/Min/N={n}/k={k}/{sh:?}"), minmax_s(n, k, false, sh)));
+            u.push(unit!(format!("C02/Max/N={n}/k={k}/{sh:?}"), minmax_s(n, k, true, sh)));
+            u.push(unit!(format!("C02/HLNormalizer/N={n}/k={k}/{sh:?}"), hln_s(n, k, sh)));
+        }
+        if n >= 2 {
+            let l = 8 * n + 2;
+            let sh = Shape::AltThenFlat(l);
+            let k = l + 5 + 2;
+            u.push(unit!(format!("C02/Sma/N={n}/k={k}/alt-then-flat"), sma_s(n, k, sh)));
+            u.push(unit!(format!("C02/Cumulative/N={n}/k={k}/alt-then-flat"), cumulative_s(n, k, sh)));
+            u.push(unit!(format!("C02/WelfordOnline/N={n}/k={k}/alt-then-flat"), welford_s(n, k, sh)));
+            u.push(unit!(format!("C02/Vst/N={n}/k={k}/alt-then-flat"), vst_s(n, k, false, sh)));
+            u.push(unit!(format!("C02/Vsct/N={n}/k={k}/alt-then-flat"), vst_s(n, k, true, sh)));
+            u.push(unit!(format!("C02/Roc/N={n}/k={k}/alt-then-flat"), roc_s(n, k, sh)));
+            u.push(unit!(format!("C02/Max/N={n}/k={k}/alt-then-flat"), minmax_s(n, k, true, sh)));
+        }
+    }
+    for x in u.iter_mut().skip(first) { x.budget_s = if tier == Tier::Quick { 30.0 } else { 300.0 }; x.path_cap = 3000; x.max_decisions = 60000; }
     u
 }
 pub fn meta() -> Meta {
     Meta {
         functions: vec!["Sma::{update,last}", "Cumulative::{update,last}", "Min::{update,last}", "Max::{update,last}", "WelfordOnline::{update,last,mean,variance}", "HLNormalizer::{update,last}", "Roc::{update,last}", "BinaryEntropy::{update,last}", "Vst::{update,last}", "Vsct::{update,last}", "Echo::{update,last}"],
-        bounds: "window length N in {1,2,3} (quick) / {1..5} (thorough; HLNormalizer to 4); stream length k = 2N+2 so every value enters and leaves the window; inputs are unconstrained reals; every feasible outcome of every comparison the real code performs is explored",
+        bounds: "window length N in {1,2,3} (quick) / {1..5} (thorough; HLNormalizer to 4); stream length k = 2N+2 so every value enters and leaves the window; inputs are unconstrained reals; every feasible outcome of every comparison the real code performs is explored; in addition (N,k) in {(8,18),(16,34),(2,40),(3,60)} (quick) / up to (32,66),(5,100) (thorough) along the comparison path of a pseudo-random sample input (larger windows, streams much longer than the window); and fully symbolic shaped long streams for N in {1,2,3} (quick) / {1,2,3,4,6}: strictly decreasing / increasing streams of length 10N+6 for Min/Max/HLNormalizer, and 8N+2 alternating values + a flat run of 5 + 2 free values for Sma/Cumulative/WelfordOnline/Vst/Vsct/Roc/Max",
         outside: vec!["N > 5, streams longer than 2N+2", "the f64 clause ('differs only by rounding noise'): obligations are decided over the reals", "overflow, -0.0, subnormals"],
         assumptions: vec!["BinaryEntropy: log2 of the (concrete, per-path) window fraction is evaluated with the platform libm and compared to 1e-12"],
     }
